@@ -74,6 +74,8 @@ package adapter
 // The sweep: afterwards the orbiter holds nothing of the denomination; what it held is on the dust collector.
 //@ func (a *Adapter) clearOrbiterBalance(ctx, denom) (err)
 //@   requires[inv] a != nil && a.bankKeeper != nil
+//   the swept coin goes through sdk.NewCoins, which panics on an invalid denomination (C11: the sweep must not block)
+//@   requires[C11] validDenom(denom)
 //@   modifies bank
 //@   ensures[C18,C11] bal(old(bank), core.ModuleAddress, denom) == 0 ==> err == nil
 //@   ensures[C11] err == nil
